@@ -108,6 +108,56 @@ def entity_order_obligations() -> list:
     return obs
 
 
+def sort_key_obligations() -> list:
+    """wn.taxonomy._synset_sort_key: two synsets with the same key have the same rowid AND the same ILI - the
+    justification of the two reviewed `sorted(common, key=_synset_sort_key)` sites (no ties between different synsets of
+    one Wordnet: stored synsets differ in rowid, inferred ones share rowid 0 and differ in ILI)."""
+    import wn.taxonomy as T
+    from vc.pyvc.interp import explore, source_span
+    from vc.pyvc.values import SV, SObj, mk
+    from vc.pyvc import famcmp
+    fn = getattr(T, '_synset_sort_key', None)
+    cm = dict(prop=PROP, functions=('wn.taxonomy._synset_sort_key',), assumptions_used=())
+    if fn is None:
+        return [Obligation('wn.taxonomy._synset_sort_key:exists', kind='static', decided=False,
+                           detail='the key function of the reviewed sorted() sites is gone', **cm)]
+    objs = []
+    for n in ('a', 'b'):
+        objs.append(SObj(core.Synset, {'_id': mk('int', f'{n}_id'), 'id': mk('str', f'{n}_name'),
+                                       '_ili': mk('str', f'{n}_ili', optional=True), '_lexid': mk('int', f'{n}_lex'),
+                                       'pos': mk('str', f'{n}_pos')}, name=n))
+    a, b = objs
+    obs = []
+    outs = explore(lambda it: (it.call_function(fn, [a], {}), it.call_function(fn, [b], {})), packages=('wn',))
+    for k, o in enumerate(outs):
+        if o.kind != 'return':
+            obs.append(Obligation(f'wn.taxonomy._synset_sort_key:no-raise:p{k}', kind='post', decided=False,
+                                  detail='the key function raises', **cm))
+            continue
+        ka, kb = o.value
+        try:
+            same_key = z_boolv(famcmp.value_eq(ka, kb))
+        except Exception as exc:   # noqa: BLE001
+            obs.append(Obligation(f'wn.taxonomy._synset_sort_key:shape:p{k}', kind='post', decided=False,
+                                  detail=f'keys cannot be compared: {exc}', **cm))
+            continue
+        ia, ib = a.attrs['_ili'], b.attrs['_ili']
+        from contracts.common import LITS
+        empty = LITS.lit('')
+        # no ILI is None or '' (both mean "none"): compared as the empty string
+        same_ili = z3.If(ia.none, empty, ia.z) == z3.If(ib.none, empty, ib.z)
+        obs.append(Obligation(f'wn.taxonomy._synset_sort_key:separates:p{k}', kind='post',
+                              assumptions=list(o.pc) + [same_key],
+                              goal=z3.And(a.attrs['_id'].z == b.attrs['_id'].z, same_ili),
+                              detail='equal sort keys => same rowid and same ILI (no ties between different synsets)',
+                              source=source_span(fn), **cm))
+    return obs
+
+
+def z_boolv(x):
+    return x if z3.is_expr(x) else z3.BoolVal(bool(x))
+
+
 def run(sess: Session):
     sess.assume('A-ORDER-STATIC', 'the order analysis is per function and flow-insensitive; it follows sets through '
                                   'local names, annotations, module constants and annotated return types, not through '
@@ -115,6 +165,11 @@ def run(sess: Session):
                                   'ints are not randomised; dict preserves insertion order')
     for ob in static_obligations():
         sess.check(ob)
+    try:
+        for ob in sort_key_obligations():
+            sess.check(ob)
+    except Unsupported as exc:
+        sess.unsupported('wn.taxonomy._synset_sort_key', str(exc))
     try:
         for ob in entity_order_obligations():
             if isinstance(ob, tuple):
